@@ -61,6 +61,12 @@ func (v V) JS() string {
 		return v.K
 	case "obj":
 		return "{}"
+	case "Sobj":
+		return `new String("s")`
+	case "Nobj":
+		return "new Number(2)"
+	case "Bobj":
+		return "new Boolean(false)"
 	case "logobj":
 		return fmt.Sprintf("__L(%q,%s)", v.S, ox.JSNum(v.N))
 	case "rawstr":
@@ -147,6 +153,12 @@ func (v V) Model(w *cw) om.Value {
 		return om.ObjV(w.cb4)
 	case "obj":
 		return om.ObjV(w.r.NewObject())
+	case "Sobj":
+		return om.ObjV(w.r.NewStringObject("s"))
+	case "Nobj":
+		return om.ObjV(w.r.ToObject(om.Num(2)))
+	case "Bobj":
+		return om.ObjV(w.r.ToObject(om.FalseV))
 	case "logobj":
 		o := w.r.NewObject()
 		tag, n := v.S, v.N
